@@ -194,8 +194,9 @@ def one_program(chk, exe, rng, k, quick):
             if GEN_FAILED in o:
                 site = death_site(o)
                 chk.dist('generator_died_in', site)
-                if opt >= 2 and site in C01_SITES and any(ft in prog['features'] for ft in ('laddr', 'lref', 'lref_diff')):
-                    chk.dist('c01_owned_generator_death', site)
+                listed = any(sig == 'gen-died:' + site for sig, _ in chk.known)
+                if not listed and opt >= 2 and site in C01_SITES and any(ft in prog['features'] for ft in ('laddr', 'lref', 'lref_diff')):
+                    chk.dist('c01_owned_generator_death', site)   # until the site is listed in KNOWN_FINDINGS.txt
                 else:
                     deaths.append((site, prog, [specs[0], s], cs, opt))
         d = disagree(outs)
